@@ -34,7 +34,7 @@ class Cfg:
 
 class Case:
     def __init__(self, name, text, mode="U", m=2, n=2, ref_text=None, out_map=None, functors=None, family="", max_loop=40,
-                 consts_in_universe=True, assume=None, judge="lm", judge_arg=None, orders=("fwd",)):
+                 consts_in_universe=True, assume=None, judge="lm", judge_arg=None, orders=("fwd",), extra_consts=()):
         self.name = name
         self.text = text
         self.ref_text = ref_text if ref_text is not None else text
@@ -50,6 +50,7 @@ class Case:
         self.judge = judge               # name in judges.JUDGES: 'lm' = outputs equal the least model
         self.judge_arg = judge_arg
         self.orders = orders             # scan orders to try for order-dependent programs: fwd, rev, rot
+        self.extra_consts = tuple(extra_consts)   # concrete values added to the U-mode universe besides the program's constants
 
 
 def souffle_show(text, cfg, work, what=None, extra_flags=()):
@@ -105,7 +106,7 @@ class Db:
 def make_db(refprog, case, ctx):
     uni = ctx.uni
     db = Db()
-    consts = sorted(refprog.constants()) if case.consts_in_universe else []
+    consts = sorted(set(refprog.constants()) | set(sym.u32(c) for c in getattr(case, "extra_consts", ()))) if case.consts_in_universe else []
     for c in consts:
         uni.add_const(c)
     if case.mode == "U":
